@@ -163,12 +163,13 @@ fn sweep_degen(st: &Stats, fam: &Family, ft: Ft) {
 // scale scenarios (each in a child process with the default main-thread stack)
 // ------------------------------------------------------------------------------------------------
 
-pub const SCENARIOS: [&str; 5] = [
+pub const SCENARIOS: [&str; 6] = [
     "stack-left",
     "stack-right",
     "stack-cover",
     "sawtooth-box",
     "stack-stack",
+    "vertex-fan",
 ];
 
 fn rect(x0: f64, y0: f64, x1: f64, y1: f64) -> Polygon<f64> {
@@ -209,6 +210,13 @@ pub fn scenario_operands(name: &str, edges: usize) -> (MP, MP) {
                 )
             };
             (s(0.0, 10.0, 0.0), s(5.0, 15.0, 0.5))
+        }
+        "vertex-fan" => {
+            // n/3 disjoint triangles that touch only in the origin (a valid multipolygon), against a small
+            // triangle with a vertex in the origin: very many result edges meet in one vertex
+            let k = (edges / 3).max(1);
+            let fan = MultiPolygon((0..k).map(|i| poly_from(&[(0.0, 0.0), (-1.0, 2.0 * i as f64 + 1.0), (-1.0, 2.0 * i as f64)], &[])).collect::<Vec<_>>());
+            (fan, MultiPolygon(vec![poly_from(&[(0.0, 0.0), (1.0, 0.0), (1.0, 1.0)], &[])]))
         }
         "sawtooth-box" => {
             // one polygon with n/2 teeth along the top, clipped by a box through the teeth
